@@ -20,7 +20,7 @@ fn describe(prop: &str) -> (&'static str, &'static str) {
             "reference {minter, cap fixed at instantiation}: supply rises only in an accepted Mint by the reference minter, supply <= cap in every state, Minter query == (reference minter, original cap), UpdateMinter accepted only from the reference minter, nothing accepted once the minter is None",
         ),
         "C19" => (
-            "Increase/DecreaseAllowance (to exactly zero, above, below; expiries), TransferFrom/SendFrom/BurnFrom (to exactly zero) among owners and spenders incl. mutual ones, AdvanceBlock; at every reachable state: migrate from a pre-0.14 layout (spender index wiped, cw2 version 0.13.4 / 0.12.1) and same-version migrate",
+            "Increase/DecreaseAllowance (to exactly zero, above, below; expiries), TransferFrom/SendFrom/BurnFrom (to exactly zero) among owners and spenders incl. mutual ones, AdvanceBlock; at every reachable state: migrate from a pre-0.14 layout (spender index wiped, cw2 version 0.13.4 / 0.13.0 / 0.12.1 / 0.10.3 / 0.9.1 / 0.2.3) and same-version migrate",
             "for every ordered pair: Allowance{o,s}, the entry for s in the fully paged AllAllowances{o} and the entry for o in the fully paged AllSpenderAllowances{s} carry the same amount and expiry; a pair absent from one listing is absent from the other and reads (0, never); migration leaves every query unchanged",
         ),
         _ => ("", ""),
